@@ -182,7 +182,7 @@ func init() {
 	// vss_reconstruct curve [[t id share] ...]
 	vc.Register("vss_reconstruct", func(a []val.V) val.V {
 		ec := curveByName(val.AsAtom(a[0]))
-		var shares vss.Shares
+		shares := make(vss.Shares, 0)
 		for _, s := range val.AsList(a[1]) {
 			l := val.AsList(s)
 			shares = append(shares, &vss.Share{Threshold: int(val.AsInt64(l[0])), ID: val.AsInt(l[1]), Share: val.AsInt(l[2])})
